@@ -8,6 +8,11 @@ from .c04 import schedule_st
 from .c10 import TimedWorld, expected_instants
 
 SIGNAMES = ["VA", "VB", "VC"]
+NESTED = ["VT", "VT_X", "X_VT_X"]       # names that contain one another
+
+
+def signame(case, sig):
+  return NESTED[SIGNAMES.index(sig)] if case.get("nested") else sig
 
 
 @st.composite
@@ -29,13 +34,23 @@ def cancel_case(draw):
     cancels.append({"by": by, "target": target, "at": draw(st.integers(0, 12)) * 0.25,
                     "form": draw(st.sampled_from(["same", "rebuilt", "rebuilt", "roundtrip"]))})
   cancels.sort(key=lambda c: c["at"])
+  late = None
+  if draw(st.integers(0, 2)) == 0:
+    # a further source armed right after the first cancellation returned (an object re-arming a
+    # timer it has just cancelled); a later cancellation may aim at it
+    late = {"kind": draw(st.sampled_from(["fifo", "lifo"])), "period": draw(st.sampled_from([0.5, 0.25, 1.0])),
+            "times": draw(st.sampled_from([0, 0, 2, 5])), "deferred": draw(st.sampled_from([True, False])),
+            "sig": draw(st.sampled_from(SIGNAMES + [sources[cancels[0]["target"]]["sig"]] * 3))}
+    for c in cancels[1:]:
+      if draw(st.integers(0, 2)) == 0:
+        c["target"] = n
   # scheduling decisions scripted for the cancel instants themselves: short run lengths there
   timed = {}
   for c in cancels:
     timed[str(c["at"])] = [list(x) for x in draw(st.lists(st.tuples(st.integers(0, 4), st.integers(1, 40)),
                                                           max_size=5))]
   return {"sources": sources, "cancels": cancels, "schedule": [list(x) for x in draw(schedule_st)],
-          "timed_schedule": timed}
+          "timed_schedule": timed, "late": late, "nested": draw(st.integers(0, 2)) == 0}
 
 
 class C11(Prop):
@@ -43,7 +58,9 @@ class C11(Prop):
   quick_examples = 600
   thorough_examples = 4000
   rule = ("Generated sets of 1-4 timed sources (fifo/lifo, periods from {0.25,0.5,0.75,1.0}, times "
-          "in {0,1,2,3,5}, deferred or not, signals from three names so that sources share names) and "
+          "in {0,1,2,3,5}, deferred or not, signals from three names so that sources share names - in a third of the "
+          "cases names that contain one another (VT, VT_X, X_VT_X) - optionally one more source armed right after the "
+          "first cancellation returned, which a later cancellation may aim at) and "
           "1-2 cancellations issued by the body at generated virtual instants that are multiples of "
           "0.25 (so they frequently coincide with a firing, leaving the interleaving to the "
           "generated schedule): cancel_event(id) or cancel_events(e), where the id / event is the "
@@ -106,13 +123,16 @@ class C11(Prop):
       s.quiesce()
       t0 = s.now
       for k, src in enumerate(case["sources"]):
-        e = Event(signal=signals[src["sig"]], payload=k)
+        e = Event(signal=signame(case, src["sig"]), payload=k)
         ids.append(getattr(chart, "post_" + src["kind"])(e, period=src["period"], times=src["times"],
                                                         deferred=src["deferred"]))
       info["t0"] = t0
-      for c in case["cancels"]:
+      allsrc = list(case["sources"])
+      for ci, c in enumerate(case["cancels"]):
         s.wake_at(t0 + c["at"])      # competes with the sources that fire at this instant
-        src = case["sources"][c["target"]]
+        if c["target"] >= len(allsrc):
+          c = dict(c, target=0)      # (a shrunk case may have lost its late source)
+        src = allsrc[c["target"]]
         if c["by"] == "id":
           arg = ids[c["target"]]
           if c["form"] != "same":
@@ -120,7 +140,7 @@ class C11(Prop):
           chart.cancel_event(arg)
           hit = [c["target"]]
         else:
-          name = src["sig"]
+          name = signame(case, src["sig"])
           if c["form"] == "same":
             ev = Event(signal=signals[name])
           elif c["form"] == "rebuilt":
@@ -128,8 +148,15 @@ class C11(Prop):
           else:
             ev = Event.loads(Event.dumps(Event(signal=signals[name], payload={"x": 1})))
           chart.cancel_events(ev)
-          hit = [k for k, x in enumerate(case["sources"]) if x["sig"] == name]
+          hit = [k for k, x in enumerate(allsrc) if x["sig"] == src["sig"]]
         info["cancel_ret"].append({"step": s.steps, "now": s.now, "hit": hit, "c": c})
+        if ci == 0 and case.get("late"):
+          lt = case["late"]
+          info["late_t0"] = s.now
+          allsrc.append(lt)
+          e = Event(signal=signame(case, lt["sig"]), payload=len(allsrc) - 1)
+          ids.append(getattr(chart, "post_" + lt["kind"])(e, period=lt["period"], times=lt["times"],
+                                                       deferred=lt["deferred"]))
       horizon = t0 + 4.0
       info["horizon"] = horizon
       s.sleep_until(horizon)
@@ -137,7 +164,7 @@ class C11(Prop):
       for i in ids:
         chart.cancel_event(i)
       for name in SIGNAMES:
-        chart.cancel_events(Event(signal=signals[name]))
+        chart.cancel_events(Event(signal=signame(case, name)))
       s.quiesce()
 
     try:
@@ -147,8 +174,9 @@ class C11(Prop):
     if s.thread_errors:
       name, e, tb = s.thread_errors[0]
       raise PropertyViolation("thread %s died: %s: %s" % (name, type(e).__name__, e), "C11:thread-error")
-    srcs = case["sources"]
+    srcs = list(case["sources"]) + ([case["late"]] if case.get("late") and "late_t0" in info else [])
     t0 = info["t0"]
+    start_of = lambda k: info["late_t0"] if k >= len(case["sources"]) else t0
     cancelled = {}
     nontrivial = False
     for cr in info["cancel_ret"]:
@@ -157,12 +185,14 @@ class C11(Prop):
         nontrivial = True
       for k in cr["hit"]:
         cancelled.setdefault(k, cr)
-        fires = expected_instants(t0, srcs[k]["period"], srcs[k]["times"], srcs[k]["deferred"], info["horizon"])
+        fires = expected_instants(start_of(k), srcs[k]["period"], srcs[k]["times"], srcs[k]["deferred"], info["horizon"])
         if any(abs(f - (t0 + c["at"])) < 1e-12 for f in fires):
           nontrivial = True
-    stats.case(case, nontrivial, ["cancel_by_%s_%s" % (c["by"], c["form"]) for c in case["cancels"]])
+    stats.case(case, nontrivial, ["cancel_by_%s_%s" % (c["by"], c["form"]) for c in case["cancels"]] +
+               (["late_source"] if len(srcs) > len(case["sources"]) else []) +
+               (["nested_names"] if case.get("nested") else []))
     for k, src in enumerate(srcs):
-      mine = [p for p in info["posts"] if p["id"] == k and p["sig"] == src["sig"]]
+      mine = [p for p in info["posts"] if p["id"] == k and p["sig"] == signame(case, src["sig"])]
       if k in cancelled:
         cr = cancelled[k]
         late = [p for p in mine if p["inv"] > cr["step"]]
@@ -184,7 +214,7 @@ class C11(Prop):
             continue
       else:
         got = [p["now"] for p in mine]
-        want = expected_instants(t0, src["period"], src["times"], src["deferred"], info["horizon"])
+        want = expected_instants(start_of(k), src["period"], src["times"], src["deferred"], info["horizon"])
         if got != want:
           raise PropertyViolation("source %d (%s) was not cancelled but posted at %s, expected %s; cancels: %s" % (
             k, src["sig"], got, want, case["cancels"]), "C11:other-source-disturbed")
